@@ -26,6 +26,51 @@ var families = map[string]func(r *rand.Rand, i int) *Program{
 	"crash":     genCrash,
 	"dist":      genDist,
 	"lenrace":   genLenRace,
+	"burst":     genBurst,
+	"bigbatch":  genBigBatch,
+}
+
+// bigbatch: one batch of several hundred items whose stream is read only after Wait (or never).
+func genBigBatch(r *rand.Rand, i int) *Program {
+	p := &Program{Kind: []string{"result", "err", "plain"}[r.Intn(3)], Conc: 2 + r.Intn(3), Queues: []string{qkind(r)}, Steps: 400000}
+	n := 260 + r.Intn(120)
+	var ks, prios []int
+	for j := 0; j < n; j++ {
+		ks = append(ks, j)
+		prios = append(prios, r.Intn(3))
+		oc := 0
+		if p.Kind == "err" {
+			oc = 1
+		}
+		p.Outcomes = append(p.Outcomes, oc)
+	}
+	th := []Op{{Op: "addall", B: 0, Ks: ks, Prios: prios}, {Op: "gwait", B: 0}, {Op: "gpending", B: 0}}
+	if p.Kind != "plain" && r.Intn(2) == 0 {
+		th = append(th, Op{Op: "gcollect", B: 0})
+	}
+	p.Threads = [][]Op{th}
+	return p
+}
+
+// burst: several producers cross FIFO segment boundaries concurrently (segment capacities lowered
+// for the execution so that a handful of jobs crosses several boundaries).
+func genBurst(r *rand.Rand, i int) *Program {
+	g := &gen{r: r}
+	caps := [][]int{{1, 1}, {1, 2}, {2, 3}, {2, 2}, {3, 4}}
+	p := &Program{Kind: kinds(r), Conc: 1 + r.Intn(3), Queues: []string{"fifo"}, Caps: caps[r.Intn(len(caps))], WFYields: r.Intn(2), Paused: r.Intn(3) == 0}
+	nt := 2 + r.Intn(2)
+	for t := 0; t < nt; t++ {
+		th := g.adds(2 + r.Intn(3))
+		if r.Intn(3) == 0 {
+			th = append(th, Op{Op: "qpending"})
+		}
+		p.Threads = append(p.Threads, th)
+	}
+	if p.Paused {
+		p.Threads = append(p.Threads, []Op{{Op: "yield"}, {Op: "yield"}, {Op: "resume"}})
+	}
+	p.Threads[0] = append(p.Threads[0], Op{Op: "wuf"})
+	return p
 }
 
 // lenrace: length readers racing producers and purgers on a paused worker (nobody else dequeues).
